@@ -1,4 +1,4 @@
-//@serves C10 C11 C14 C17
+//@serves C10 C11 C14 C17 C16
 //@tier A
 //@include prelude/head.rs
 verus! {
@@ -100,6 +100,11 @@ impl RootRef<'_> {
 //@use root.RootRef.remove_file
 //@use root.RootRef.remove_all
 //@use root.RootRef.rename
+}
+//@item src/root.rs :: struct Root | sub.Root
+impl Root {
+//@use root.Root.from_fd
+//@use root.Root.create
 }
 //@item src/capi/utils.rs :: struct CBorrowedFd | sub.CBorrowedFd
 impl<'fd> CBorrowedFd<'fd> {
